@@ -474,3 +474,26 @@ impl Protocol for V5 {
         Ok(size)
     }
 }
+
+/// Verification hooks: compiled only by the Kani model checker (`cfg(kani)`).
+/// Thin public wrappers over private codec helpers; no behaviour of their own.
+#[cfg(kani)]
+pub mod verif_api {
+    use super::*;
+
+    pub fn length(stream: Iter<u8>) -> Result<(usize, usize), Error> {
+        super::length(stream)
+    }
+
+    pub fn write_remaining_length(stream: &mut BytesMut, len: usize) -> Result<usize, Error> {
+        super::write_remaining_length(stream, len)
+    }
+
+    pub fn len_len(len: usize) -> usize {
+        super::len_len(len)
+    }
+
+    pub fn fixed_header_parts(fh: &FixedHeader) -> (u8, usize, usize) {
+        (fh.byte1, fh.fixed_header_len, fh.remaining_len)
+    }
+}
